@@ -11,6 +11,7 @@ import (
 	"fmt"
 	"net/http"
 	"sort"
+	"strings"
 	"sync"
 	"testing"
 	"time"
@@ -39,6 +40,10 @@ type Op struct {
 	Spec *world.ChainSpec
 	A, B int
 	Flip bool
+	// Pad > 0 (reads): the numeric query parameters are spelt in a non-canonical decimal form - 1: one leading
+	// zero, 2: zero-padded to 6 digits, 3: a leading plus sign. The log may refuse such a request; when it
+	// answers, the answer is judged for the decimal value.
+	Pad int
 }
 
 type Case struct {
@@ -47,6 +52,10 @@ type Case struct {
 	Ops        []Op
 	ClockMs    int64
 	Indirect   bool // external issuance-chain storage
+	// Preload > 0: the tree already holds that many sequenced entries when the history starts
+	Preload int
+	// Bulky: some certificates carry 300-450 KiB of padding, so that a few entries exceed a megabyte
+	Bulky bool
 	// concurrent variant
 	Workers int
 }
@@ -57,7 +66,7 @@ func genOps(t *rapid.T, n int, label string) []Op {
 		k := rapid.IntRange(0, 19).Draw(t, label+"kind")
 		switch {
 		case k <= 4:
-			s := world.GenSpec(t, fmt.Sprintf("%ss%d", label, i))
+			s := world.GenSpecX(t, fmt.Sprintf("%ss%d", label, i))
 			// one fresh submission in eight carries a copy of the root whose signature bits were altered: it must
 			// either be refused or be stored as submitted
 			ops = append(ops, Op{Kind: "add", Spec: &s, Flip: rapid.IntRange(0, 7).Draw(t, "altroot") == 0})
@@ -68,15 +77,25 @@ func genOps(t *rapid.T, n int, label string) []Op {
 		case k <= 10:
 			ops = append(ops, Op{Kind: "sth"})
 		case k <= 12:
-			ops = append(ops, Op{Kind: "cons", A: rapid.IntRange(0, 40).Draw(t, "a"), B: rapid.IntRange(0, 40).Draw(t, "b")})
+			ops = append(ops, Op{Kind: "cons", A: rapid.IntRange(0, 200).Draw(t, "a"), B: rapid.IntRange(0, 200).Draw(t, "b")})
 		case k <= 14:
-			ops = append(ops, Op{Kind: "proof", A: rapid.IntRange(0, 40).Draw(t, "a"), B: rapid.IntRange(0, 40).Draw(t, "b"), Flip: rapid.IntRange(0, 9).Draw(t, "unknown") == 0})
+			ops = append(ops, Op{Kind: "proof", A: rapid.IntRange(0, 200).Draw(t, "a"), B: rapid.IntRange(0, 200).Draw(t, "b"), Flip: rapid.IntRange(0, 9).Draw(t, "unknown") == 0})
 		case k <= 16:
-			ops = append(ops, Op{Kind: "entries", A: rapid.IntRange(0, 40).Draw(t, "a"), B: rapid.IntRange(0, 5).Draw(t, "b")})
+			ops = append(ops, Op{Kind: "entries", A: rapid.IntRange(0, 200).Draw(t, "a"), B: rapid.IntRange(0, 5).Draw(t, "b")})
 		case k <= 18:
-			ops = append(ops, Op{Kind: "eap", A: rapid.IntRange(0, 40).Draw(t, "a"), B: rapid.IntRange(0, 40).Draw(t, "b")})
+			ops = append(ops, Op{Kind: "eap", A: rapid.IntRange(0, 200).Draw(t, "a"), B: rapid.IntRange(0, 200).Draw(t, "b")})
 		default:
-			ops = append(ops, Op{Kind: "roots"})
+			if rapid.Bool().Draw(t, "clk") {
+				// the front end's clock is stepped, backwards as often as forwards (front ends of one log do not share a clock)
+				ops = append(ops, Op{Kind: "clock", A: rapid.IntRange(-5000, 5000).Draw(t, "dms")})
+			} else {
+				ops = append(ops, Op{Kind: "roots"})
+			}
+		}
+		if last := &ops[len(ops)-1]; last.Kind == "cons" || last.Kind == "proof" || last.Kind == "entries" || last.Kind == "eap" {
+			if rapid.IntRange(0, 3).Draw(t, "padded") == 0 {
+				last.Pad = rapid.IntRange(1, 3).Draw(t, "pad")
+			}
 		}
 	}
 	return ops
@@ -88,7 +107,28 @@ func gen(t *rapid.T) Case {
 	c.Indirect = rapid.IntRange(0, 3).Draw(t, "indirect") == 0
 	c.ClockMs = rapid.Int64Range(1, 4102444800000).Draw(t, "clock")
 	c.Ops = genOps(t, rapid.IntRange(5, 40).Draw(t, "n"), "")
+	if rapid.IntRange(0, 11).Draw(t, "bulky") == 0 {
+		c.Bulky = true
+		bulkUp(t, c.Ops)
+	}
+	if !c.Indirect && rapid.IntRange(0, 3).Draw(t, "preloaded") == 0 {
+		c.Preload = rapid.IntRange(8, 130).Draw(t, "preload")
+	}
 	return c
+}
+
+// bulkUp gives most submissions of a history 300-450 KiB of padding and makes the get-entries ranges long.
+func bulkUp(t *rapid.T, ops []Op) {
+	for i := range ops {
+		switch ops[i].Kind {
+		case "add":
+			if !ops[i].Spec.RootOnly && rapid.IntRange(0, 3).Draw(t, "bulk") != 0 {
+				ops[i].Spec.Bulk = rapid.IntRange(300, 450).Draw(t, "kib") << 10
+			}
+		case "entries":
+			ops[i].B = 3 + ops[i].B%3
+		}
+	}
 }
 
 type issued struct {
@@ -138,7 +178,7 @@ func newRun(t *testing.T, v *harness.Verdict, c Case) *run {
 		t.Fatalf("instance: %v", err)
 	}
 	r.inst = inst
-	lc, err := client.New("http://log.example/log", &http.Client{Transport: ctfex.RoundTripper{Inst: inst}}, jsonclient.Options{PublicKeyDER: r.logKey.SPKI})
+	lc, err := client.New("http://log.example/log", &http.Client{Transport: padTransport{ctfex.RoundTripper{Inst: inst}}}, jsonclient.Options{PublicKeyDER: r.logKey.SPKI})
 	if err != nil {
 		t.Fatalf("client: %v", err)
 	}
@@ -151,7 +191,49 @@ func newRun(t *testing.T, v *harness.Verdict, c Case) *run {
 		r.lc2, _ = client.New("http://log.example/twin", &http.Client{Transport: ctfex.RoundTripper{Inst: inst2}}, jsonclient.Options{PublicKeyDER: key2.SPKI})
 	}
 	r.seqNs = uint64(c.ClockMs)*1e6 + 999
+	if c.Preload > 0 && !c.Indirect {
+		for i := 0; i < c.Preload; i++ {
+			lv, err := rfc6962.EncodeLeaf(rfc6962.Leaf{Timestamp: uint64(c.ClockMs) - 1, Entry: rfc6962.Entry{Type: rfc6962.X509Entry, Cert: []byte(fmt.Sprintf("earlier entry %d", i))}})
+			if err != nil {
+				t.Fatalf("preload: %v", err)
+			}
+			r.be.AppendRaw(lv, []byte{0, 0, 0})
+		}
+		r.be.Publish(r.seqNs)
+		v.Class("tree-preloaded")
+	}
 	return r
+}
+
+type padKey struct{}
+
+// padTransport re-spells the numeric query parameters of a request whose context carries a padding mode.
+type padTransport struct{ inner http.RoundTripper }
+
+func (p padTransport) RoundTrip(req *http.Request) (*http.Response, error) {
+	mode, _ := req.Context().Value(padKey{}).(int)
+	if mode != 0 {
+		q := req.URL.Query()
+		for k, vs := range q {
+			for i, v := range vs {
+				if v == "" || strings.Trim(v, "0123456789") != "" {
+					continue
+				}
+				switch mode {
+				case 1:
+					vs[i] = "0" + v
+				case 2:
+					vs[i] = fmt.Sprintf("%06s", v)
+				case 3:
+					vs[i] = "+" + v
+				}
+			}
+			q[k] = vs
+		}
+		req = req.Clone(req.Context())
+		req.URL.RawQuery = q.Encode()
+	}
+	return p.inner.RoundTrip(req)
 }
 
 func (r *run) failf(sig, f string, a ...any) {
@@ -190,7 +272,18 @@ func verifyDS(pub crypto.PublicKey, ds ct.DigitallySigned, msg []byte) error {
 
 // exec performs one op. concurrent=true relaxes "current root" comparisons to "some published root".
 func (r *run) exec(ctx context.Context, op Op, concurrent bool) {
+	if op.Pad != 0 {
+		ctx = context.WithValue(ctx, padKey{}, op.Pad)
+		r.class("non-canonical-decimal-parameters")
+	}
 	switch op.Kind {
+	case "clock":
+		if now := r.clock.Now().Add(time.Duration(op.A) * time.Millisecond); now.UnixMilli() > 0 {
+			r.clock.Set(now)
+			if op.A < 0 {
+				r.class("clock-stepped-back")
+			}
+		}
 	case "add", "dup":
 		var b *world.Built
 		var chain [][]byte
@@ -214,7 +307,7 @@ func (r *run) exec(ctx context.Context, op Op, concurrent bool) {
 			}
 			b = prev.built
 			chain = b.Submit
-			if op.Flip && !(b.Spec.Precert && len(b.Spec.Inters) == 0) {
+			if op.Flip && !(b.Spec.Precert && len(b.Spec.Inters) == 0) && !b.Spec.RootOnly {
 				if len(chain) == len(b.Full) {
 					chain = b.Full[:len(b.Full)-1]
 				} else {
@@ -227,7 +320,7 @@ func (r *run) exec(ctx context.Context, op Op, concurrent bool) {
 			r.class("duplicate-submission")
 		}
 		altered := false
-		if op.Kind == "add" && op.Flip {
+		if op.Kind == "add" && op.Flip && !b.Spec.RootOnly {
 			// the complete chain, its last certificate (the root) with one signature bit flipped
 			chain = append([][]byte{}, b.Full...)
 			root := append([]byte(nil), chain[len(chain)-1]...)
@@ -282,6 +375,9 @@ func (r *run) exec(ctx context.Context, op Op, concurrent bool) {
 		}
 		proof, err := r.lc.GetSTHConsistency(ctx, first, second)
 		if err != nil {
+			if op.Pad != 0 {
+				return
+			}
 			r.failf("consistency-refused", "get-sth-consistency(%d,%d) with tree %d: %v", first, second, cur, err)
 			return
 		}
@@ -306,9 +402,19 @@ func (r *run) exec(ctx context.Context, op Op, concurrent bool) {
 		start := op.A % cur
 		end := start + op.B
 		rsp, err := r.lc.GetRawEntries(ctx, int64(start), int64(end))
+		if err != nil && op.Pad != 0 {
+			return
+		}
 		if err != nil {
 			r.failf("entries-refused", "get-entries(%d,%d) with tree %d: %v", start, end, cur, err)
 			return
+		}
+		total := 0
+		for i := start; i <= end && i < r.be.Size(); i++ {
+			total += len(r.be.Leaf(i).LeafValue) + len(r.be.Leaf(i).ExtraData)
+		}
+		if total > 1<<20 {
+			r.class("get-entries-range-over-1MiB")
 		}
 		for i, e := range rsp.Entries {
 			if start+i >= r.be.Size() {
@@ -328,6 +434,9 @@ func (r *run) exec(ctx context.Context, op Op, concurrent bool) {
 		n := uint64(op.B)%cur + 1
 		i := uint64(op.A) % n
 		rsp, err := r.lc.GetEntryAndProof(ctx, i, n)
+		if err != nil && op.Pad != 0 {
+			return
+		}
 		if err != nil {
 			r.failf("eap-refused", "get-entry-and-proof(%d,%d) with tree %d: %v", i, n, cur, err)
 			return
@@ -454,6 +563,9 @@ func (r *run) proofByHash(ctx context.Context, op Op) {
 	leaf := r.be.Leaf(int(idx))
 	h := mtree.LeafHash(leaf.LeafValue)
 	rsp, err := r.lc.GetProofByHash(ctx, h[:], size)
+	if err != nil && op.Pad != 0 {
+		return
+	}
 	if err != nil {
 		r.failf("proof-refused", "get-proof-by-hash(leaf %d, size %d): %v", idx, size, err)
 		return
@@ -519,7 +631,7 @@ func (r *run) finalChecks(ctx context.Context) {
 		h := rfc6962.LeafHash(lv)
 		// the library's own client-side computation must agree with the reference
 		var chain []*x509.Certificate
-		for _, d := range is.built.Full[:2] {
+		for _, d := range is.built.Full[:min(2, len(is.built.Full))] {
 			c, err := x509.ParseCertificate(d)
 			if c == nil {
 				r.t.Fatalf("parse: %v", err)
@@ -656,6 +768,9 @@ func genConc(t *rapid.T) Case {
 	c := Case{LogKeyKind: "p256", Workers: rapid.IntRange(2, 6).Draw(t, "workers"), LogKeyIdx: rapid.IntRange(0, 5).Draw(t, "logkeyidx"), Indirect: rapid.IntRange(0, 3).Draw(t, "indirect") == 0}
 	c.ClockMs = rapid.Int64Range(1, 4102444800000).Draw(t, "clock")
 	c.Ops = genOps(t, rapid.IntRange(10, 40).Draw(t, "n"), "")
+	if !c.Indirect && rapid.IntRange(0, 3).Draw(t, "preloaded") == 0 {
+		c.Preload = rapid.IntRange(8, 130).Draw(t, "preload")
+	}
 	return c
 }
 
